@@ -113,7 +113,7 @@ impl AsCborValue for CoseSign {
         // Remove array elements in reverse order to avoid shifts.
         let signatures = a.remove(3).try_as_array_then_convert(|v| {
             CoseSignature::from_cbor_value(v).map_err(|e| match e {
-                CoseError::DuplicateMapKey => e,
+                CoseError::DuplicateMapKey | CoseError::OutOfRangeIntegerValue => e,
                 _ => CoseError::UnexpectedItem("non-signature", "map for COSE_Signature"),
             })
         })?;
